@@ -558,10 +558,13 @@ int main(int argc, char** argv) {
                 else
                     entry = a;
             }
+            ModuleLoader loader(paths);
+            for (int attempt = 0; attempt < 2; ++attempt)
             try {
-                ModuleLoader loader(paths);
+                // the second attempt reuses the loader: load() starts from a clean slate, so the
+                // same request must produce the same answer whatever the first one ended with
                 auto prog = loader.load(entry);
-                std::printf("{\"classes\":[");
+                std::printf("{\"attempt\":%d,\"classes\":[", attempt);
                 for (size_t i = 0; i < prog->classes.size(); ++i)
                     std::printf("%s\"%s\"", i ? "," : "", esc(prog->classes[i]->name).c_str());
                 std::printf("],\"functions\":[");
@@ -569,7 +572,7 @@ int main(int argc, char** argv) {
                     std::printf("%s\"%s\"", i ? "," : "", esc(prog->functions[i]->name).c_str());
                 std::printf("],\"statements\":%zu,\"shots\":[%d,%d]}\n", prog->statements.size(),
                             prog->shots.first ? 1 : 0, prog->shots.second);
-                if (analyse) {
+                if (analyse && attempt == 0) {
                     SemanticAnalyser an;
                     an.analyse(*prog);
                     std::printf("{\"accepted\":1}\n");
